@@ -76,14 +76,14 @@ def entries_of(path):
 
 
 def exact_equal(a, b):
-    """same entry text-wise (no numeric tolerance): used for byte-level claims"""
+    """same entry text-wise (no numeric tolerance), the Part 21 comment in front of it included: used for byte-level claims"""
     return G.render_inst(a) == G.render_inst(b)
 
 
-def run_case(ctx, h, m, schema, pop, holes, states, strict, workdir, tag, reuse=False):
+def run_case(ctx, h, m, schema, pop, holes, states, strict, workdir, tag, reuse=False, wc=0):
     """one history: read (exchange), set states, save, load, save, load, save.  returns (kind, what) or None.
     reuse=True: the STEPfile / InstMgr of the previous history are kept (no `reset`): one editing session that loads,
-    saves and reloads several times"""
+    saves and reloads several times.  wc: the writeComments argument of every save (instances may carry Part 21 comments)"""
     base = os.path.join(workdir, f"{tag}_base.p21")
     open(base, "w").write(G.render(schema.name, pop))
     w = [os.path.join(workdir, f"{tag}_w{k}.p21") for k in range(4)]
@@ -101,24 +101,24 @@ def run_case(ctx, h, m, schema, pop, holes, states, strict, workdir, tag, reuse=
         if a != "R ok" or b != "R ok":
             return ("correspondence", f"setstate {k}: impl {a} model {b}")
     # exchange round trip of the same session (for "same values as an exchange round trip")
-    h.cmd(f"write {x[0]} 0")
+    h.cmd(f"write {x[0]} 0 {wc}")
     # save / load / save / load / save
-    h.cmd(f"writework {w[0]}")
+    h.cmd(f"writework {w[0]} {wc}")
     mw0 = m.cmd("writework")
     r1h = kv(h.cmd(f"readwork {w[0]}"))
     r1m = kv(m.cmd("readwork " + mw0[2:]))
     d1h, d1m = h.cmd("dump"), m.cmd("dump")
-    h.cmd(f"writework {w[1]}")
+    h.cmd(f"writework {w[1]} {wc}")
     mw1 = m.cmd("writework")
     h.cmd(f"readwork {w[1]}")
     m.cmd("readwork " + mw1[2:])
     d2h, d2m = h.cmd("dump"), m.cmd("dump")
-    h.cmd(f"writework {w[2]}")
+    h.cmd(f"writework {w[2]} {wc}")
     mw2 = m.cmd("writework")
     # exchange round trip in a fresh session, same mode
     h.cmd(f"reset {strict}")
     h.cmd(f"read {x[0]}")
-    h.cmd(f"write {x[1]} 0")
+    h.cmd(f"write {x[1]} 0 {wc}")
     try:
         ft0, e0 = entries_of(w[0]); ft1, e1 = entries_of(w[1]); ft2, e2 = entries_of(w[2])
         _, _, ex1 = G.parse_p21(open(x[1]).read())
@@ -140,12 +140,20 @@ def run_case(ctx, h, m, schema, pop, holes, states, strict, workdir, tag, reuse=
         return ("property", f"editing states after reading back: {[c for _, _, c in d1]}, saved {[s for s, _ in live]}")
     if [b for _, b, _ in d1] != [i.type_name() for _, i in live]:
         return ("property", f"types after reading back: {[b for _, b, _ in d1]}")
-    # values = those of an exchange round trip (same mode)
+    # first save carries every instance's comment when comments are written
+    if wc:
+        for (l, i), orig in zip(e0, pop):
+            if (i.comment or None) != (orig.comment or None):
+                return ("property", f"first save (writeComments=1): instance #{i.id} carries comment {i.comment!r}, the session's instance has {orig.comment!r}")
+    # values (and the comment that belongs to the instance) = those of an exchange round trip (same mode)
     exch = {i.id: i for _, i in ex1}
     for l, i in e1:
         if i.id not in exch or not G.inst_equal(i, exch[i.id]):
             return ("property", f"instance #{i.id}: working-session round trip gives {G.render_inst(i)}, exchange round trip "
                                 f"{G.render_inst(exch[i.id]) if i.id in exch else 'nothing'}")
+        if (i.comment or None) != (exch[i.id].comment or None):
+            return ("property", f"instance #{i.id}: after the working-session round trip its Part 21 comment is {i.comment!r}, after an "
+                                f"exchange round trip {exch[i.id].comment!r}")
     # second save = first save without its D entries (byte-identical entries), third = second byte for byte
     e0_live = [(l, i) for l, i in e0 if l != "D"]
     hole_pos = {(pop[idx].id, pi, ai) for idx, pi, ai, base in holes if not strict and base in SUBST}
@@ -237,13 +245,18 @@ def run(ctx):
             for pi_ in range(n_pops):
                 pop0 = G.gen_population(ctx.rng, s, ctx.rng.randint(1, 5 if quick else 8), p_null_optional=0.3)
                 pop, holes = partial_fill(ctx.rng, s, pop0, p=0.0 if pi_ % 3 == 0 else 0.35)
+                if pi_ % 2 == 0:
+                    pop = G.add_comments(ctx.rng, pop, 0.4)
                 prev_case = None
                 for ai in range(n_assign):
                     mode = ["any", "complete", "nodelete", "any", "uniform", "complete"][ai % 6]
                     states = assign_states(ctx.rng, pop, mode)
                     reuse = ai % 3 != 0            # two of three histories continue in the session of the previous one
                     strict = pi_ % 2 if True else 0    # the mode is fixed when the STEPfile is made: constant per session
-                    r = run_case(ctx, h, m, s, pop, holes, states, strict, wd, "c", reuse=(reuse and ai > 0))
+                    wc = 1 if ai % 4 != 3 else 0
+                    r = run_case(ctx, h, m, s, pop, holes, states, strict, wd, "c", reuse=(reuse and ai > 0), wc=wc)
+                    ctx.hist("writeComments", str(wc))
+                    ctx.hist("instances carrying a comment", str(sum(1 for i in pop if i.comment)))
                     ctx.hist("session", "continued" if (reuse and ai > 0) else "fresh")
                     if r and r[0] == "correspondence":
                         # oracle satisfied, model and code differ: remember, keep searching for a failing input first
@@ -263,7 +276,7 @@ def run(ctx):
                         # does it need the continued session?  (then the previous history is part of the failing input)
                         previous = None
                         if reuse and ai > 0 and prev_case is not None:
-                            fresh = run_case(ctx, h, m, s, pop, holes, states, strict, wd, "s")
+                            fresh = run_case(ctx, h, m, s, pop, holes, states, strict, wd, "s", wc=wc)
                             if not (fresh and fresh[0] == kind):
                                 previous = prev_case
                         # shrink: drop instances while the same kind of problem persists
@@ -271,8 +284,8 @@ def run(ctx):
 
                         def fails(p_, h_, s_):
                             if previous is not None:
-                                run_case(ctx, h, m, s, previous[0], previous[1], previous[2], strict, wd, "sp")
-                            rr = run_case(ctx, h, m, s, p_, h_, s_, strict, wd, "s", reuse=previous is not None)
+                                run_case(ctx, h, m, s, previous[0], previous[1], previous[2], strict, wd, "sp", wc=wc)
+                            rr = run_case(ctx, h, m, s, p_, h_, s_, strict, wd, "s", reuse=previous is not None, wc=wc)
                             return rr is not None and rr[0] == kind
                         changed, budget = True, 40
                         while changed and budget > 0:
@@ -289,15 +302,15 @@ def run(ctx):
                                     cur, changed = (cand, hc, sc), True
                                     break
                         p_, h_, s_ = cur
-                        rr = (None if previous is not None else run_case(ctx, h, m, s, p_, h_, s_, strict, wd, "s")) or r
+                        rr = (None if previous is not None else run_case(ctx, h, m, s, p_, h_, s_, strict, wd, "s", wc=wc)) or r
                         rep = {"schema_express": s.express(), "schema_name": s.name, "strict": strict,
-                               "file": G.render(s.name, p_), "states": s_,
+                               "file": G.render(s.name, p_), "states": s_, "writeComments": wc,
                                "holes": [[i, a, b_, c] for i, a, b_, c in h_],
                                "previous_history_in_same_session": None if previous is None else {
                                    "file": G.render(s.name, previous[0]), "states": previous[2],
                                    "holes": [[i, a, b_, c] for i, a, b_, c in previous[1]]},
                                "how": "exp2cxx the schema, link harness/h_p21.cc; reset <strict>; read FILE; setstate i <state>...; "
-                                      "writework W0; readwork W0; dump; writework W1; readwork W1; writework W2"}
+                                      "writework W0 <writeComments>; readwork W0; dump; writework W1 <wc>; readwork W1; writework W2 <wc>"}
                         if kind == "property":
                             key = "ws:" + ("strict" if strict else "lenient") + ":" + ",".join(
                                 f"{LETTER[x]}{i.type_name()}" for x, i in zip(s_, p_))
@@ -346,9 +359,10 @@ def replay(ctx, path):
         pv = r.get("previous_history_in_same_session")
         if pv:
             ppop = [i for _, i in G.parse_p21(pv["file"])[2]]
-            run_case(ctx, h, m, schema, ppop, [tuple(x) for x in pv.get("holes", [])], pv["states"], r["strict"], wd, "rp")
+            run_case(ctx, h, m, schema, ppop, [tuple(x) for x in pv.get("holes", [])], pv["states"], r["strict"], wd, "rp",
+                     wc=r.get("writeComments", 0))
         rr = run_case(ctx, h, m, schema, pop, [tuple(x) for x in r.get("holes", [])], r["states"], r["strict"], wd, "r",
-                      reuse=bool(pv))
+                      reuse=bool(pv), wc=r.get("writeComments", 0))
         print("result:", rr)
         if rr and rr[0] == "property":
             ctx.violation(d.get("key", "replay"), rr[1], r)
@@ -356,37 +370,29 @@ def replay(ctx, path):
         h.close(); m.close()
 
 
-class _SchemaFromExpress:
-    """just enough of p21_gen.Schema for replay: the attribute tables are recovered from the EXPRESS text the generator wrote"""
+def _SchemaFromExpress(text):
+    """rebuild the p21_gen.Schema from the EXPRESS text the generator wrote (replays carry only the text)"""
+    name = re.search(r"SCHEMA (\w+);", text).group(1)
+    inv = {}
+    for k in list(G.KIND_POOL) + list(G.EXTRA_KINDS) + ["SELECT_S"]:
+        if k not in ("ENTITY", "AGG_ENT", "AGG_ENTS"):
+            inv[G.Attr("x", k).express_type()] = k
 
-    def __init__(self, text):
-        self.name = re.search(r"SCHEMA (\w+);", text).group(1)
-        self.entities, self.by_name = [], {}
-        tmap = {"len_t": "DEF_REAL", "cnt_t": "DEF_INT", "colour_t": "ENUM", "sel_e": "SELECT_E", "sel_t": "SELECT_T", "sel_m": "SELECT_M"}
-        for m in re.finditer(r"ENTITY (\w+)(.*?)END_ENTITY;", text, re.S):
-            nm, body = m.group(1), m.group(2)
-            sup = re.search(r"SUBTYPE OF \((\w+)\)", body)
-            attrs = []
-            for am in re.finditer(r"^\s+(\w+) : (OPTIONAL )?([^;]+);", body, re.M):
-                ty = am.group(3).strip()
-                dm = re.match(r"d([123])_(\w+)$", ty)
-                if dm and f"D{dm.group(1)}_{dm.group(2).upper()}" in G.DEPTH_KINDS:
-                    k, tgt = f"D{dm.group(1)}_{dm.group(2).upper()}", None
-                elif ty in ("sel_l", "sel_out", "sel_r"):
-                    k, tgt = {"sel_l": "SELECT_L", "sel_out": "SELECT_N", "sel_r": "SELECT_R"}[ty], None
-                elif ty in G.SIMPLE:
-                    k, tgt = ty, None
-                elif ty in tmap:
-                    k, tgt = tmap[ty], None
-                elif ty.startswith(("LIST", "SET", "BAG", "ARRAY")):
-                    k, tgt = "AGG_INT", None
-                else:
-                    k, tgt = "ENTITY", ty
-                attrs.append(G.Attr(am.group(1), k, bool(am.group(2)), tgt))
-            e = G.Entity(nm, sup.group(1) if sup else None, attrs)
-            self.entities.append(e)
-            self.by_name[nm] = e
-
-    def all_attrs(self, name):
-        e = self.by_name[name]
-        return (self.all_attrs(e.supertype) if e.supertype else []) + list(e.attrs)
+    def attr(nm, opt, ty):
+        ty = ty.strip()
+        if ty in inv:
+            return G.Attr(nm, inv[ty], opt)
+        m = re.match(r"(LIST|SET) \[0:\?\] OF (\w+)$", ty)
+        if m:
+            return G.Attr(nm, "AGG_ENT" if m.group(1) == "LIST" else "AGG_ENTS", opt, m.group(2))
+        return G.Attr(nm, "ENTITY", opt, ty)
+    ents = []
+    for m in re.finditer(r"ENTITY (\w+)(.*?)END_ENTITY;", text, re.S):
+        nm, body = m.group(1), m.group(2)
+        sup = re.search(r"SUBTYPE OF \((\w+)\)", body)
+        attrs = [attr(am.group(1), bool(am.group(2)), am.group(3))
+                 for am in re.finditer(r"^\s+(\w+) : (OPTIONAL )?([^;]+);", body, re.M)]
+        redecl = [(rm.group(1), attr(rm.group(2), False, rm.group(3)))
+                  for rm in re.finditer(r"^\s+SELF\\(\w+)\.(\w+) : ([^;]+);", body, re.M)]
+        ents.append(G.Entity(nm, sup.group(1) if sup else None, attrs, andor_root=" ANDOR " in body, redecl=redecl))
+    return G.Schema(name, ents, ["t0", "t1"])
